@@ -227,6 +227,29 @@ Example read_diff_example :
    IR {| r_time := 200; r_type := EXIT; r_depth := 0; r_addr := 0 |}].
 Proof. vm_compute. reflexivity. Qed.
 
+(* (3) the +-1 ns rule needs hooks at least 2 ns apart: with 1 ns between the thread's first hook and the
+   next one the queue is no longer ordered (first event stamped t+1, next one (t+1)-1 = t), the head blocks
+   the flush, and the second event is written inside the callee although it is stamped before its ENTRY *)
+Definition gap_cfg : xcfg :=
+  {| xb := plain 0 1024 1024 PG; read_of := fun _ => 0; wp_cpu := true; wp_var := false; pmu_ok := false;
+     fix_var := false; fix_drop := false |}.
+Definition gap_run (g : N) : list xev :=
+  [XEnter 0 100 (o_cpu_only 1); XEnter 256 (100 + g) (o_cpu_only 2); XLeave (100 + 2 * g) (o_cpu_only 3);
+   XLeave 200 (o_cpu_only 4)].
+Lemma watch_times_gap1_refuted :
+  map oideal (xout (snd (xexec gap_cfg (gap_run 1) xstart))) =
+  [OR (100, 0, 5, 0, 0); OR (101, 0, 5, 1, 256); OE 101 C17_EVENT_ID_WATCH_CPU [1]; OE 100 C17_EVENT_ID_WATCH_CPU [2];
+   OE 101 C17_EVENT_ID_WATCH_CPU [3]; OR (102, 1, 5, 1, 256); OE 199 C17_EVENT_ID_WATCH_CPU [4]; OR (200, 1, 5, 0, 0)] /\
+  ok_times (map oideal (xout (snd (xexec gap_cfg (gap_run 1) xstart)))) = false.
+Proof. vm_compute. split; reflexivity. Qed.
+(* with 2 ns every watch event sits in front of its hook's record (the first one behind it) *)
+Example watch_times_gap2 :
+  map oideal (xout (snd (xexec gap_cfg (gap_run 2) xstart))) =
+  [OR (100, 0, 5, 0, 0); OE 101 C17_EVENT_ID_WATCH_CPU [1]; OE 101 C17_EVENT_ID_WATCH_CPU [2]; OR (102, 0, 5, 1, 256);
+   OE 103 C17_EVENT_ID_WATCH_CPU [3]; OR (104, 1, 5, 1, 256); OE 199 C17_EVENT_ID_WATCH_CPU [4]; OR (200, 1, 5, 0, 0)] /\
+  ok_times (map oideal (xout (snd (xexec gap_cfg (gap_run 2) xstart)))) = true.
+Proof. vm_compute. split; reflexivity. Qed.
+
 (* ---------------------------------------------------------------- the overlap guard of save_trigger_read *)
 (* if the word the guard reads were the size of the argument area (header included), storing would
    imply disjointness ... *)
